@@ -1,0 +1,16 @@
+//go:build verif
+
+// ASSUMED contract for the ONS option getter the ons handlers (C20) depend on.
+// Comment-only file, read by /verif/govc.
+
+package governance
+
+// ONS options (typed view, ASSUMED; requested by C20). onsPer/onsBase: per-block fee and base domain price in force.
+// C20.options: per-block fee > 0 (ValidateONS enforces PerBlockFees >= minPerBlockFee = 1 on updates; genesis value 10^14), base price >= 0.
+//@ model onsPer(*Store) int
+//@ model onsBase(*Store) int
+//@ assume func (*Store).GetONSOptions
+//@   modifies nothing
+//@   ensures err == nil ==> result0 != nil && fresh(result0) && result0.PerBlockFees == onsPer(st) && result0.BaseDomainPrice == onsBase(st)
+//@   ensures err == nil ==> onsPer(st) > 0 && onsBase(st) >= 0       // C20.options
+//@   ensures err != nil ==> result0 == nil
